@@ -196,6 +196,8 @@ def child_main(chan, cache_dir, installed_dir, task, chunks=CHUNKS, lock_timeout
     hed_schema_io.load_schema = load_schema
 
     net = [0]
+    from hed.schema.schema_io import schema_util as _su0
+    real_url_to_file = _su0.url_to_file
 
     def no_net(*a, **k):
         net[0] += 1
@@ -279,6 +281,40 @@ def child_main(chan, cache_dir, installed_dir, task, chunks=CHUNKS, lock_timeout
             a.join(10)
             out["result"] = "ok"
             out["t1"], out["t2"] = seen.get("t1", "stuck"), seen.get("t2", "stuck")
+        elif kind == "refresh_fake":
+            # a refresh against a REACHABLE source: a fake repository (GitHub-style listing + downloads) that offers the files of
+            # task[1] with a hash that differs from anything cached, so that each of them is downloaded and moved into the cache.
+            # url_to_file and _safe_move_tmp_to_folder are the library's own.
+            import io as _io
+            offered = list(task[1])
+
+            class _Resp:
+                def __init__(self, data):
+                    self._d = data
+                    self.code = 200
+
+                def read(self):
+                    return self._d
+
+            def fake_request(url, *a, **k):
+                net[0] += 1
+                if url.endswith("/standard_schema/hedxml") or url.endswith("standard_schema" + hed_cache.hedxml_suffix):
+                    listing = [{"type": "file", "name": f, "sha": "0" * 40, "download_url": "https://fake.invalid/dl/" + f} for f in offered]
+                    return _Resp(json.dumps(listing).encode())
+                if url.endswith("/library_schemas"):
+                    return _Resp(b"[]")           # no libraries in this repository
+                if "/dl/" in url:
+                    with open(os.path.join(installed_dir, url.rsplit("/", 1)[1]), "rb") as fh:
+                        return _Resp(fh.read())
+                raise urllib.error.URLError("no such folder in the fake repository: " + url)
+            from hed.schema.schema_io import schema_util as _su
+            hed_cache.make_url_request = fake_request
+            _su.make_url_request = fake_request
+            hed_cache.url_to_file = real_url_to_file
+            _su.url_to_file = real_url_to_file
+            r = hed_cache.cache_xml_versions(cache_folder=cache_dir)
+            out["result"] = "skipped" if r == -1 else "ran"
+            out["ret"] = r
         elif kind == "refresh_twice":
             # ONE process refreshes, lets time pass (its clock is advanced by task[1] seconds) while ANOTHER process refreshes
             # (the parent rewrites the timestamp file at the scheduling point), and refreshes again
